@@ -28,13 +28,16 @@ RULE = ("core runs: control-flow-heavy programs (every branch/call/return encodi
 SCHEDULE_MEASURE = "distinct (program, base address, initial state or event schedule) hashes"
 COMPONENTS = {
     "real": ["sc62015/arch.py SC62015.get_instruction_info", "sc62015/pysc62015/instr/instructions.py analyze()",
-             "sc62015/pysc62015/emulator.py Emulator.execute_instruction", "pce500/emulator.py PCE500Emulator.step (machine runs)"],
-    "stub": ["binja_test_mocks (InstructionInfo, BranchType, LLIL evaluator)", "Rust side not involved (metadata is Python)"],
+             "sc62015/pysc62015/emulator.py Emulator.execute_instruction", "pce500/emulator.py PCE500Emulator.step (machine runs)",
+             "sc62015/core/src/lib.rs CoreRuntime::step + sc62015/core/src/sio.rs SioStub (rs-sio: returns performed by the ROM stub on a "
+             "machine configured by DeviceModel::configure_runtime)"],
+    "stub": ["binja_test_mocks (InstructionInfo, BranchType, LLIL evaluator)", "the metadata is Python; the Rust machine appears only in the call/return pairing of rs-sio"],
 }
 ASSUMPTIONS = ["call/return pairing is judged only when the callee left S where the call put it and did not overwrite the "
                "return frame", "RESET reports an unresolved branch and is not judged"]
 PROBES = ["cond_taken", "cond_not_taken", "uncond", "call", "ret_paired", "retf_paired", "reti_paired", "page_edge_code",
-          "irq_inside_callee", "indirect_jump", "ir", "space_end_code", "code_patched_in_place"]
+          "irq_inside_callee", "indirect_jump", "ir", "space_end_code", "code_patched_in_place", "rom_routine_return",
+          "routine_inside_outer_far", "routine_inside_outer_near"]
 COND = {0x14: ("Z", 1), 0x15: ("Z", 0), 0x16: ("C", 1), 0x17: ("C", 0), 0x18: ("Z", 1), 0x19: ("Z", 1), 0x1A: ("Z", 0),
         0x1B: ("Z", 0), 0x1C: ("C", 1), 0x1D: ("C", 1), 0x1E: ("C", 0), 0x1F: ("C", 0)}
 CTRL_OPS = [0x02, 0x03, 0x04, 0x05, 0x06, 0x07, 0x10, 0x11, 0x12, 0x13, 0x14, 0x15, 0x16, 0x17, 0x18, 0x19, 0x1A, 0x1B, 0x1C,
@@ -52,9 +55,138 @@ def _arch():
 
 
 def batches(tier: str) -> List[Batch]:
+    # rs-sio: call/return pairing on a Rust machine put together by DeviceModel::configure_runtime, where the ROM's
+    # serial routines are answered by a stub that performs the routine's *return* itself
     if tier == "quick":
-        return [Batch("core", "py-core", 4000, 25), Batch("machine", "py-machine", 480, 6)]
-    return [Batch("core", "py-core", 250000, 100), Batch("machine", "py-machine", 20000, 10)]
+        return [Batch("core", "py-core", 4000, 25), Batch("machine", "py-machine", 480, 6), Batch("rs-sio", "rs-machine", 3000, 100)]
+    return [Batch("core", "py-core", 250000, 100), Batch("machine", "py-machine", 20000, 10), Batch("rs-sio", "rs-machine", 60000, 500)]
+
+
+SIO_ROUTINES = [0xEB030, 0xEB31C, 0xEB33D]
+
+
+def _gen_sio(r: Rng) -> Dict[str, Any]:
+    """Firmware on a device-configured Rust machine: optional outer call (near / far), then an inner call that reaches
+    one of the ROM's serial routines — directly (CALLF routine), or through a helper entered by a near or far call that
+    tail-jumps into it — or an ordinary callee as control.  The routine's return (performed by the stub) must lead to the
+    instruction after the innermost call, with S where it was before that call."""
+    from .. import progen
+    base = progen.CODE_BASE
+    code: List[int] = []
+    ins: Dict[str, list] = {}
+    fix: List[tuple] = []
+
+    def emit(bs, tag=""):
+        at = len(code)
+        ins[str(base + at)] = [len(bs), tag]
+        code.extend(bs)
+        return at
+
+    def nops(lo, hi):
+        for _ in range(r.range(lo, hi)):
+            emit([0x00], "NOP")
+
+    outer = r.choice(["none", "near", "far", "far"])
+    inner = r.choice(["callf_direct", "near_helper", "far_helper", "near_helper", "plain_near", "plain_far", "near_direct"])
+    routine = r.choice(SIO_ROUTINES)
+    if inner in ("near_helper", "near_direct"):
+        # a near call returns within the page it was made on: firmware that reaches the routines (page 0xE) by near
+        # calls lives on that page itself
+        base = 0xE0200 + 0x10 * r.below(16)
+    nops(1, 3)
+    if outer != "none":
+        fix.append((emit([0x04, 0, 0] if outer == "near" else [0x05, 0, 0, 0], "CALL:outer" if outer == "near" else "CALLF:outer"), "O"))
+    nops(2, 5)
+    emit([0x13, 0x02], "STAY")                     # JR -2
+    labels: Dict[str, int] = {}
+    if outer != "none":
+        labels["O"] = len(code)
+        nops(0, 2)
+    # inner call (in the outer routine, or in the main line when there is none)
+    calls = r.range(1, 2)
+    for _ in range(calls):
+        if inner == "callf_direct":
+            emit([0x05, routine & 0xFF, (routine >> 8) & 0xFF, (routine >> 16) & 0xFF], "CALLF:routine")
+        elif inner == "near_direct":
+            emit([0x04, routine & 0xFF, (routine >> 8) & 0xFF], "CALL:routine")
+        elif inner in ("near_helper", "plain_near"):
+            fix.append((emit([0x04, 0, 0], "CALL:inner"), "H"))
+        else:
+            fix.append((emit([0x05, 0, 0, 0], "CALLF:inner"), "H"))
+        nops(1, 2)
+    if outer != "none":
+        emit([0x06] if outer == "near" else [0x07], "RET" if outer == "near" else "RETF")
+    else:
+        emit([0x13, 0x02], "STAY")
+    labels["H"] = len(code)
+    nops(0, 2)
+    if inner in ("near_helper", "far_helper", "near_direct", "callf_direct"):
+        emit([0x03, routine & 0xFF, (routine >> 8) & 0xFF, (routine >> 16) & 0xFF], "JPF:routine")
+    elif inner == "plain_near":
+        emit([0x06], "RET")
+    else:
+        emit([0x07], "RETF")
+    for at, lab in fix:
+        tgt = base + labels[lab]
+        if code[at] == 0x04:
+            code[at + 1], code[at + 2] = tgt & 0xFF, (tgt >> 8) & 0xFF
+        else:
+            code[at + 1], code[at + 2], code[at + 3] = tgt & 0xFF, (tgt >> 8) & 0xFF, (tgt >> 16) & 0xFF
+    n = 40
+    prog = {"image": [[base, code]], "rom_tail": [0, 0, 0, base & 0xFF, (base >> 8) & 0xFF, (base >> 16) & 0xFF],
+            "entry": base, "main": base, "handler": base, "code": [base, 0xFFFFF], "ins": ins, "style": "sio"}
+    return {"kind": "sio", "exec": "rs-machine", "device": r.choice(["pce500", "pce500", "jp"]), "prog": prog,
+            "regs": {"PC": base, "S": progen.S_INIT - r.below(8), "U": progen.U_INIT, "BA": r.below(0x10000), "I": 0, "X": 0, "Y": 0,
+                     "F": r.below(4)},
+            "imem": [[progen.IMR, 0], [progen.ISR, 0]], "timer": {"enabled": False, "mti": 0, "sti": 0},
+            "kb": {"press": 1, "release": 1, "repeat_delay": 24, "repeat_interval": 6, "active_high": True},
+            "boundaries": n, "ops": [], "watch": [], "feat": {}, "faulty": False,
+            "shape": [outer, inner, routine]}
+
+
+def _check_sio(scn: Dict[str, Any], hist: Dict[str, Any]) -> List[Dict[str, Any]]:
+    viols: List[Dict[str, Any]] = []
+    probes: Dict[str, int] = {}
+    hist["_probes"] = probes
+    obs = hist["obs"]
+    ins = scn["prog"]["ins"]
+    img = irqmodel.image_bytes(scn)
+    frames: List[Dict[str, Any]] = []
+
+    def V(cls, k, msg, **where):
+        viols.append({"cls": cls, "executor": "rs-machine", "where": where, "msg": f"boundary {k}: {msg}", "at": k})
+
+    for k in range(len(obs) - 1):
+        pc, s = obs[k][O_PC], obs[k][O_S] & 0xFFFFF
+        nxt, s2 = obs[k + 1][O_PC], obs[k + 1][O_S] & 0xFFFFF
+        ent = ins.get(str(pc))
+        tag = ent[1] if ent else ""
+        if pc in SIO_ROUTINES or tag in ("RET", "RETF"):
+            how = "rom_routine" if pc in SIO_ROUTINES else tag
+            if pc in SIO_ROUTINES:
+                probes["rom_routine_return"] = probes.get("rom_routine_return", 0) + 1
+            if not frames:
+                continue
+            fr = frames.pop()
+            probes["ret_paired" if fr["w"] == 2 else "retf_paired"] = probes.get("ret_paired" if fr["w"] == 2 else "retf_paired", 0) + 1
+            if pc in SIO_ROUTINES and len(frames) >= 1:
+                probes["routine_inside_outer_" + ("far" if frames[-1]["w"] == 3 else "near")] = 1
+            if nxt != fr["ret"]:
+                V("call_return", k, f"return ({how}) from the call at {fr['at']:#x} ({'CALL' if fr['w'] == 2 else 'CALLF'}) went to "
+                  f"{nxt:#x}, the instruction after the call is {fr['ret']:#x}", field="resume_pc", kind=how, shape="/".join(map(str, scn["shape"][:2])))
+                break
+            if s2 != fr["s"]:
+                V("call_return", k, f"return ({how}) from the call at {fr['at']:#x} left S={s2:#x}, before the call it was {fr['s']:#x}",
+                  field="S", kind=how, shape="/".join(map(str, scn["shape"][:2])))
+                break
+        elif tag.startswith("CALLF") or tag.startswith("CALL"):
+            w = 3 if tag.startswith("CALLF") else 2
+            probes["call"] = probes.get("call", 0) + 1
+            frames.append({"at": pc, "ret": (pc + (4 if w == 3 else 3)) & 0xFFFFF, "w": w, "s": s})
+            if s2 != ((s - w) & 0xFFFFF):
+                V("call_return", k, f"{tag} at {pc:#x} moved S from {s:#x} to {s2:#x}", field="S", kind="call", shape="/".join(map(str, scn["shape"][:2])))
+                break
+    return viols
 
 
 def _gen_cf_program(r: Rng, base: int, n: int):
@@ -110,6 +242,8 @@ def _gen_cf_program(r: Rng, base: int, n: int):
 
 
 def generate(batch: str, r: Rng, idx: int, tier: str) -> Dict[str, Any]:
+    if batch == "rs-sio":
+        return _gen_sio(r)
     if batch == "machine":
         feat = machine.gen_features(r.child("feat"), {"timers": True, "keys": True, "onk": True, "imr_writes": True,
                                                       "isr_writes": False, "wait": True, "halt": False, "off": False,
@@ -154,6 +288,11 @@ def generate(batch: str, r: Rng, idx: int, tier: str) -> Dict[str, Any]:
             code, starts, handler = _gen_cf_program(r.child("prog-moved"), base, n)
     st = core.gen_state(r.child("state"))
     st["regs"]["PC"] = base
+    rf = r.child("flagbyte")
+    if rf.chance(1, 4):
+        # the whole flag byte as a register file handed over from outside has it (a stepper snapshot, a bundle
+        # written by the Rust core): carry and zero are bits 0 and 1 whatever the other six bits hold
+        st["regs"]["F"] = rf.below(256)
     scn = {"kind": "core", "exec": "py-core", "base": base, "code": code, "starts": starts, "state": st,
            "steps": r.choice([20, 60, 120]), "vector": handler}
     # code patched in place between two passes over the same emulator (a RAM jump table, a relocating loader):
@@ -192,6 +331,9 @@ def _info(bs: List[int], addr: int):
 
 
 def execute(scn: Dict[str, Any]) -> Dict[str, Any]:
+    if scn["kind"] == "sio":
+        h = machine.run_machine(scn)
+        return {"obs": [o[:machine.O_SHADOW] for o in h["obs"]], "err": h["err"]}
     if scn["kind"] == "machine":
         hist = machine.run_machine(scn)
         img = irqmodel.image_bytes(scn)
@@ -315,6 +457,8 @@ def _hex(bs):
 
 
 def check(scn: Dict[str, Any], hist: Dict[str, Any]) -> List[Dict[str, Any]]:
+    if scn["kind"] == "sio":
+        return _check_sio(scn, hist)
     ex = scn["exec"]
     viols: List[dict] = []
     probes: Dict[str, int] = {}
@@ -458,6 +602,10 @@ def check(scn: Dict[str, Any], hist: Dict[str, Any]) -> List[Dict[str, Any]]:
 
 def stats(scn: Dict[str, Any], hist: Dict[str, Any]) -> Dict[str, Any]:
     probes = dict(hist.get("_probes") or {})
+    if scn["kind"] == "sio":
+        return {"nontrivial": bool(probes.get("rom_routine_return") or probes.get("ret_paired") or probes.get("retf_paired")),
+                "sig": digest([scn["prog"]["image"], scn["regs"], scn["device"]]), "faults": {}, "probes": probes,
+                "cycles": len(hist["obs"]), "boundaries": len(hist["obs"]) - 1}
     nontrivial = any(probes.get(k) for k in ("cond_taken", "uncond", "ret_paired", "retf_paired", "reti_paired"))
     if scn["kind"] == "machine":
         obs = hist["obs"]
@@ -469,6 +617,9 @@ def stats(scn: Dict[str, Any], hist: Dict[str, Any]) -> Dict[str, Any]:
 
 
 def sample(scn: Dict[str, Any], hist: Dict[str, Any]) -> Dict[str, Any]:
+    if scn["kind"] == "sio":
+        return {"executor": scn["exec"], "shape": scn["shape"], "device": scn["device"],
+                "pc_s": [[hex(o[O_PC]), hex(o[O_S])] for o in hist["obs"][:16]]}
     if scn["kind"] == "machine":
         return {"executor": scn["exec"], "timer": scn["timer"], "ops": scn["ops"][:8], "boundaries": scn["boundaries"]}
     return {"base": hex(scn["base"]), "code_hex": _hex(scn["code"][:40]),
@@ -477,6 +628,14 @@ def sample(scn: Dict[str, Any], hist: Dict[str, Any]) -> Dict[str, Any]:
 
 
 def shrink(scn: Dict[str, Any]):
+    if scn["kind"] == "sio":
+        n = scn["boundaries"]
+        for nb in (n // 2, n - 4):
+            if 4 <= nb < n:
+                c = copy.deepcopy(scn)
+                c["boundaries"] = nb
+                yield c
+        return
     if scn["kind"] == "machine":
         from . import c12
         yield from c12.shrink(scn)
